@@ -377,6 +377,34 @@ def gen_case(rng: random.Random, tier: str, bias: str = ''):
     return dict(kind=kind, tree=tree, hops=hops, seed=rng.randrange(1 << 30))
 
 
+def systematic_cases(tier: str):
+    """seed-independent stream: EVERY class of the library x chain kind x forward/re-raise pattern
+    (quick: patterns of 1-2 hops after the first, chains none/cause; thorough: all chains, up to 4 hops),
+    plus every class once as RemoteException member, bare member and shared member of an EnsembleError"""
+    import itertools
+    big = tier == 'thorough'
+    chains = ['none', 'cause', 'cause2', 'context'] if big else ['none', 'cause']
+    pats = [''.join(p) for k in range(0, 4 if big else 3) for p in itertools.product('fr', repeat=k)]
+    out = []
+    for cls in range(N_CLASSES):
+        for ci, chain in enumerate(chains):
+            for pi, pat in enumerate(pats):
+                leaf = dict(cls=cls, argseed=1000 * cls + 10 * pi + ci, depth=1 + (cls + pi) % 6, chain=chain,
+                            chain_depth=1 + pi % 3, state='live')
+                hops = [dict(proc=f'SpawnProcess-{k + 1}', rr=(1 + (k + cls) % 4 if c == 'r' else 0), arg='d', tbdepth=1)
+                        for k, c in enumerate('f' + pat)]
+                out.append(dict(kind='systematic', tree=leaf, hops=hops, seed=0))
+        if cls in UNPICKLABLE_IDX:
+            continue
+        leaf = dict(cls=cls, argseed=cls, depth=2, chain='none', chain_depth=1, state='live')
+        ens = dict(ens=[dict(t='rem', e=dict(leaf)), dict(t='exc', e=dict(leaf, state='recv')), dict(t='val', v=cls % len(VALS)),
+                        dict(t='rem', share=0, depth=3), dict(t='exc', e=dict(leaf, depth=4, chain='cause'))],
+                   n=3, depth=1, chain='none', chain_depth=1, state='live', argseed=0, cls=-1, sub=cls % 5 == 0)
+        out.append(dict(kind='systematic', tree=ens, seed=0,
+                        hops=[dict(proc=f'P{k}', rr=(2 if c == 'r' else 0), arg='d', tbdepth=1) for k, c in enumerate('ffrf')]))
+    return out
+
+
 def gen_xproc_case(rng: random.Random, tier: str):
     """a case whose hops go through a real child process (pairs of hops, default tb argument,
     real process names)"""
